@@ -28,6 +28,8 @@ type obs struct {
 	statusSig       string
 	withdrawnSig    string
 	needAppr        bool
+	votedCands      int
+	penaltyBlocks   int
 	status          map[common.Uint256]crstate.ProposalStatus
 	memberState     map[common.Uint168]crstate.MemberState
 }
@@ -51,12 +53,16 @@ func (r *run) observe(n *node) *obs {
 	for _, m := range ms {
 		o.memberState[m.Info.DID] = m.MemberState
 		parts = append(parts, fmt.Sprintf("%s:%d", r.candName(m.Info.CID), m.MemberState))
+		o.penaltyBlocks += int(m.PenaltyBlockCount)
 	}
 	sort.Strings(parts)
 	o.memberSig = strings.Join(parts, ",")
 	parts = nil
 	for _, cd := range com.GetAllCandidates() {
 		parts = append(parts, fmt.Sprintf("%s:%d", r.candName(cd.Info.CID), cd.State))
+		if cd.Votes != 0 {
+			o.votedCands++
+		}
 	}
 	sort.Strings(parts)
 	o.candSig = strings.Join(parts, ",")
@@ -82,8 +88,8 @@ func (r *run) observe(n *node) *obs {
 }
 
 func (o *obs) summary() string {
-	return fmt.Sprintf("el=%v vot=%v lc=%d lvs=%d ses=%d mem=[%s] cand=[%s] prop=[%s] wd=[%s]",
-		o.inElection, o.inVoting, o.lastCommittee, o.lastVotingStart, o.session, o.memberSig, o.candSig, o.statusSig, o.withdrawnSig)
+	return fmt.Sprintf("el=%v vot=%v lc=%d lvs=%d ses=%d mem=[%s]p%d cand=[%s]v%d prop=[%s] wd=[%s]",
+		o.inElection, o.inVoting, o.lastCommittee, o.lastVotingStart, o.session, o.memberSig, o.penaltyBlocks, o.candSig, o.votedCands, o.statusSig, o.withdrawnSig)
 }
 
 func (o *obs) fingerprint() uint64 {
@@ -256,6 +262,9 @@ func (r *run) compareNodes(a, b *node, prop, oracle, when string, full bool) []s
 		}
 		if r.faultCtx != "" {
 			sig += "@" + r.faultCtx
+		}
+		if r.collapseSig != "" {
+			sig = r.collapseSig
 		}
 		sigs = append(sigs, sig)
 		r.viol(prop, oracle, sig, "%s h=%d: %s and %s differ at %s: %s vs %s%s",
@@ -470,14 +479,22 @@ func (r *run) ledgerBalanceCheck(n *node, prop, when string) []string {
 	la := n.led.balanceOf(*cfg.CRConfiguration.CRAssetsProgramHash)
 	le := n.led.balanceOf(*cfg.CRConfiguration.CRExpensesProgramHash)
 	if n.com.CRCFoundationBalance != la {
-		sigs = append(sigs, prop+"/ledger-balance/CRCFoundationBalance")
-		r.viol(prop, "ledger-balance", prop+"/ledger-balance/CRCFoundationBalance",
+		sig := prop + "/ledger-balance/CRCFoundationBalance"
+		if r.collapseSig != "" {
+			sig = r.collapseSig
+		}
+		sigs = append(sigs, sig)
+		r.viol(prop, "ledger-balance", sig,
 			"%s h=%d: %s CRCFoundationBalance=%s but the unspent outputs of the CR assets address sum to %s",
 			when, n.tip, n.name, n.com.CRCFoundationBalance, la)
 	}
 	if n.com.CRCCommitteeBalance != le {
-		sigs = append(sigs, prop+"/ledger-balance/CRCCommitteeBalance")
-		r.viol(prop, "ledger-balance", prop+"/ledger-balance/CRCCommitteeBalance",
+		sig := prop + "/ledger-balance/CRCCommitteeBalance"
+		if r.collapseSig != "" {
+			sig = r.collapseSig
+		}
+		sigs = append(sigs, sig)
+		r.viol(prop, "ledger-balance", sig,
 			"%s h=%d: %s CRCCommitteeBalance=%s but the unspent outputs of the CR expenses address sum to %s",
 			when, n.tip, n.name, n.com.CRCCommitteeBalance, le)
 	}
